@@ -369,7 +369,8 @@ func c06Oracle(c corr.Case, impl []string) (string, int) {
 // ---- generators ----
 
 var cowDirs = []string{"/d", "/d/s", "/e"}
-var cowFiles = []string{"/d/f", "/d/g", "/d/s/h", "/e/k", "/top"}
+// ("/d/f.tmp", "/d/f~": siblings whose names differ from another file's by a suffix a temporary copy might be given)
+var cowFiles = []string{"/d/f", "/d/g", "/d/s/h", "/e/k", "/top", "/d/f.tmp", "/d/f~"}
 
 // the 9 presence combinations for a file name and for a directory name
 func cowPresenceSetup(fileIn, dirIn string) []string {
@@ -392,6 +393,9 @@ func cowPresenceSetup(fileIn, dirIn string) []string {
 	if fileIn == "layer" || fileIn == "both" {
 		add("l", "/d/f", false, "6c61796572")
 	}
+	// a sibling in the overlay that a copy-up of /d/f must leave alone
+	add("l", "/d/f.tmp", false, "7369626c696e67")
+	add("b", "/d/f~", false, "6f74686572")
 	if dirIn == "base" || dirIn == "both" {
 		add("b", "/d/s", true, "")
 		add("b", "/d/s/inbase", false, "31")
